@@ -37,18 +37,23 @@ pub open spec fn own_headers(e: HttpError) -> Seq<(Seq<char>, Seq<char>)> {
     match e.headers { Some(h) => hm_view(*h), None => Seq::empty() }
 }
 impl HttpError {
-    /// HttpError::add_header: appends one (name, value) pair to the error's own headers; fails only if the
-    /// value is not a legal header value
+    /// HttpError::add_header at (K, V) = (HeaderName, &String): the instance of the contract that unit V21 verifies
+    /// on the real generic function (name_text = Some(name), value_text = Some(value) iff it is a legal header
+    /// value).  ASSUMED on top of it: the error's header map is not full (http's limit is 32768 entries; this loop
+    /// adds one per method name of one trie node).
     #[verifier::external_body]
     pub fn add_header(&mut self, name: HeaderName, value: &String) -> (r: Result<&mut Self, HttpErrorKind>)
         ensures
             (r is Ok) == header_value_ok(value@),
-            r is Ok ==> own_headers(*final(self)) == own_headers(*old(self)).push((name.name@, value@)),
-            final(self).status_code == old(self).status_code,
-            final(self).error_code == old(self).error_code,
-            final(self).external_message == old(self).external_message,
-            final(self).internal_message == old(self).internal_message,
+            r is Ok ==> *final(self) == *final(r->Ok_0),
+            r is Ok ==> own_headers(*(r->Ok_0)) == own_headers(*old(self)).push((name.name@, value@)),
+            r is Ok ==> same_but_headers(*(r->Ok_0), *old(self)),
+            r is Err ==> own_headers(*final(self)) == own_headers(*old(self)) && same_but_headers(*final(self), *old(self)),
     { unimplemented!() }
+}
+pub open spec fn same_but_headers(a: HttpError, b: HttpError) -> bool {
+    a.status_code == b.status_code && a.error_code == b.error_code
+        && a.external_message == b.external_message && a.internal_message == b.internal_message
 }
 impl ClientErrorStatusCode {
     pub const METHOD_NOT_ALLOWED: ClientErrorStatusCode = ClientErrorStatusCode(StatusCode { code: 405 });
